@@ -260,6 +260,9 @@ def r4_cstr(ctx, P):
     ctx.floor(R, "C-string constructors", n, 3 if "nodefault" in (ctx.config or "") else 4)
 
 
+from . import stale
+
+
 def run(ctx, progs):
     ctx.assume("core::str::from_utf8, str slicing and char::encode_utf8 of the standard library are correct")
     for lab, P in progs:
@@ -268,4 +271,5 @@ def run(ctx, progs):
         r2_validated(ctx, P)
         r3_guards(ctx, P)
         r4_cstr(ctx, P)
+        stale.rule(ctx, P, "C09.R5", ("bump_string::BumpString<", "mut_bump_string::MutBumpString<"), 6, 8)
     ctx.config = None
